@@ -225,6 +225,7 @@ mkops (void)
   settings[nsettings++] = "$1$sa:lt";                 /* forbidden byte */
   settings[nsettings++] = "$9$unknown$";              /* unknown prefix */
   settings[nsettings++] = "$5$rounds=999$salt";       /* malformed parameter */
+  settings[nsettings++] = "_J9..MJ=n";                /* refused inside the method, after it has looked at several characters */
   int nfail0 = nvalid;
   int req = 0;
   for (int s = 0; s < nsettings; s++)
@@ -266,7 +267,7 @@ mkops (void)
   addop (K_RA_D, 0, 0, smd5, 2 * smd5, "crypt_ra(D,P0,%s)", settings[smd5]);
   addop (K_RA_D_ALLOCFAIL, 0, 0, smd5, 9000, "crypt_ra(D,P0,%s) while the allocator fails", settings[smd5]);
   /* failing requests through the handle that crypt_ra has to allocate or replace first (same request numbers as the other entry points) */
-  for (int s = nvalid; s < nvalid + 3; s++)
+  for (int s = nvalid; s < nvalid + 4; s++)
     addop (K_RA_D_BADREQ, 0, 0, s, 2 * nvalid + (s - nvalid), "crypt_ra(D,P0,%s)", settings[s]);
   /* compat names */
   addop (K_XCRYPT, 0, 0, 2, 2 * 2, "xcrypt(P0,%s)", settings[2]);
